@@ -1,6 +1,6 @@
 use crate::ast::*;
 use crate::lexer::{Token, Tokenizer};
-use crate::object::Error;
+use crate::object::{Error, Object};
 
 type ParseError = Error;
 
@@ -141,7 +141,7 @@ impl<'a> Parser<'a> {
 
     fn parse_measured_expr(&mut self, precedence: Precedence) -> Result<Expr, ParseError> {
         let mut left = match self.current_token {
-            Token::Int(s) => self.parse_int_expression(s),
+            Token::Int(s) => self.parse_int_expression(s)?,
             Token::Float(s) => self.parse_float_expression(s),
             Token::True => self.parse_bool_expression(true),
             Token::False => self.parse_bool_expression(false),
@@ -352,10 +352,15 @@ impl<'a> Parser<'a> {
     }
 
     #[inline]
-    fn parse_int_expression(&mut self, strval: &str) -> Expr {
+    fn parse_int_expression(&mut self, strval: &str) -> Result<Expr, ParseError> {
         self.advance();
-        Expr::Int {
-            value: strval.parse().unwrap(),
+
+        // The digits can spell a number that is larger than an integer value can hold
+        match strval.parse::<isize>() {
+            Ok(value) if Object::checked_int(value).is_some() => Ok(Expr::Int { value }),
+            _ => Err(ParseError::SyntaxError(format!(
+                "het getal {strval} is te groot voor een integer"
+            ))),
         }
     }
 
